@@ -18,7 +18,8 @@ ID = "C12"
 LEVEL = "exploration"
 RULE = (
     "G-struct programs (depth<=4) with break/recurse density raised to every legal position (first/middle/last iteration, "
-    "inside if inside loop, inside λ / named function / map-filter-sort lambda), printing of lazy lists, with probes "
+    "inside if inside loop, inside λ / named function / map-filter-sort lambda), printing of lazy lists, a print matrix (12 kinds of printable "
+    "value incl. lazy lists that yield functions x 4 printers x 7 enclosing constructs), with probes "
     "`n,` spliced after top-level statements and an exec probe plus an implicit-read probe at the end; the depth-tuple "
     "monitors also run on programs the reference model skips, provided they terminate normally. "
     "distinct_nontrivial = distinct (program, inputs) containing a structure whose run reached at least one monitor check"
@@ -33,6 +34,7 @@ MIN_COUNTERS = {
     "public_compared": {"quick": 800, "thorough": 8000},
     "programs_with_break": {"quick": 500, "thorough": 6000},
     "exhaustive_exit_programs": {"quick": 3000, "thorough": 3000},
+    "print_matrix_programs": {"quick": 500, "thorough": 500},
 }
 UNIT_TIMEOUT = 150
 
@@ -102,10 +104,53 @@ def exh_programs(outer):
             if not _legal(inner, en):
                 continue
             for on, ob in (("normal", []), ("then-X", [["brk"]]), ("then-X-in-if", [["num", 1], ["if", [[["brk"]]]]])):
-                if on != "normal" and outer in ("for-named",) and False:
+                if inner == "cond-call" and (on != "normal" or outer == "while-nocond"):
+                    # an X after a modifier in the same body is ignored (known finding of C01): not generated here
                     continue
                 body = C[inner](eb) + ob
                 out.append((f"{outer}>{inner}/{en}/{on}", C[outer](body) + probe + tail))
+    return out
+
+
+def print_programs():
+    """Every kind of printable value (plain, lazy, nested lazy, holding or lazily yielding functions) x every
+    printer x the construct it is printed in; probes follow."""
+    N = lambda k: ["num", k]  # noqa: E731
+    E = lambda k: ["el", k]   # noqa: E731
+    values = {
+        "lazy-map": [N(3), ["map", [E("d")]]],
+        "lazy-map-yielding-functions": [N(3), ["map", [["lam", None, [N(5)]]]]],
+        "lazy-map-yielding-some-functions": [N(3), ["map", [N(2), E(">"), ["if", [[["lam", None, [N(7)]]], [E("n")]]]]]],
+        "lazy-map-function-reading-context": [N(2), ["map", [["lam", 0, [E("n")]]]]],
+        "lazy-map-partly-read": [N(3), ["map", [["lam", None, [N(5)]]]], E(":"), E("h"), E("_")],
+        "lazy-nested": [N(3), ["map", [E("n"), ["map", [E("›")]]]]],
+        "lazy-filter": [N(4), ["filter", [N(2), E("%")]]],
+        "eager-list-with-function": [["list", [[["lam", None, [N(5)]]], [N(2)]]]],
+        "function": [["lam", None, [N(5)]]],
+        "function-with-arity": [N(4), ["lam", 1, [E("d")]]],
+        "vectorised": [["list", [[N(1)], [N(2)]]], ["mod", "v", [E("›")]]],
+        "number": [N(9)],
+    }
+    printers = {"print": [E(",")], "print-no-newline": [E("₴")], "print-keep": [E("…"), E("_")],
+                "print-twice": [E(":"), E(","), E(",")]}
+    contexts = {
+        "top": lambda B: B,
+        "for": lambda B: [N(2), ["for", None, B]],
+        "for-then-break": lambda B: [N(2), ["for", None, B + [["brk"]]]],
+        "lam": lambda B: [["lam", 0, B], E("†")],
+        "map": lambda B: [N(2), ["map", B + [N(1)]], E(",")],
+        "def": lambda B: [["def", "f", [], B], ["call", "f"]],
+        "if-in-while": lambda B: [N(2), ["while", [E(":")], [E("‹"), N(1), ["if", [B]]]], E("_")],
+    }
+    probe = [E("n"), E(",")]
+    tail = [["probe_exec"], E("n"), E(",")]
+    out = []
+    for vn, v in values.items():
+        for pn, pr in printers.items():
+            for cn, cx in contexts.items():
+                if cn == "for-then-break" and any(n[0] == "mod" for n in v):
+                    continue  # X after a modifier in the same body: known finding of C01, not generated here
+                out.append((f"{cn}/{vn}/{pn}", cx(v + pr) + probe + tail))
     return out
 
 
@@ -114,6 +159,8 @@ def units(tier, seed):
     u = [{"kind": "random", "seed": seed, "idx": i, "n": 60 if tier == "quick" else 100} for i in range(n_units)]
     for outer in _constructs():
         u.append({"kind": "exh", "outer": outer})
+    for part in range(4):
+        u.append({"kind": "prints", "part": part, "of": 4})
     return u
 
 
@@ -270,6 +317,13 @@ def run_unit(unit):
             for inputs in ([], [6, [1, 2]]):
                 check_case(prog, inputs, res)
         res["counters"]["exhaustive_exit_programs"] = len(progs) * 2
+        return res
+    if unit["kind"] == "prints":
+        progs = print_programs()[unit.get("part", 0)::unit.get("of", 1)]
+        for _name, prog in progs:
+            for inputs in ([], [6, [1, 2]]):
+                check_case(prog, inputs, res)
+        res["counters"]["print_matrix_programs"] = len(progs) * 2
         return res
     rnd = random.Random(f"C12/{unit['seed']}/{unit['idx']}")
     for j in range(unit["n"]):
